@@ -669,6 +669,56 @@ fn flip_one(case: &Case, acc: &mut Acc, t: &Tab, b: Base, valid: &[u8], bit: usi
     }
 }
 
+/// Two coordinated changes: (a) two MAC bytes changed by the same XOR delta, (b) by +d / -d (a comparison that folds the
+/// differences with XOR or with addition accepts these), (c) one body bit flipped together with one MAC byte set to any
+/// other value. Every such ciphertext must be rejected.
+fn eval_two_changes(case: &Case, acc: &mut Acc, t: &Tab, b: Base, kind: u64, i: usize, j: usize, d: u8) {
+    let valid = b.bytes(t);
+    let total = valid.len();
+    let mac0 = total - 32;
+    let body0 = 4 + if b.has_pub { 33 } else { 0 };
+    let mut tampered = valid.clone();
+    let what = match kind {
+        0 => {
+            tampered[mac0 + i] ^= d;
+            tampered[mac0 + j] ^= d;
+            "two-mac-bytes-same-xor"
+        }
+        1 => {
+            tampered[mac0 + i] = tampered[mac0 + i].wrapping_add(d);
+            tampered[mac0 + j] = tampered[mac0 + j].wrapping_sub(d);
+            "two-mac-bytes-plus-minus"
+        }
+        _ => {
+            // i = body bit, j = mac byte
+            tampered[body0 + i / 8] ^= 1 << (i % 8);
+            tampered[mac0 + j] ^= d;
+            "body-bit-and-mac-byte"
+        }
+    };
+    if tampered == valid {
+        return;
+    }
+    acc.evaluations += 1;
+    let mut input = b.json(t);
+    input["tampered_ciphertext"] = json!(hx(&tampered));
+    input["tamper"] = json!(what);
+    let (sk_r, pk_s) = match (t.lib_priv(b.r, true), t.lib_pub(b.s, true)) {
+        (Ok(x), Ok(y)) => (x, y),
+        _ => return,
+    };
+    let want = ref_decrypt(&t.shared[b.s][b.r], &tampered, b.has_pub);
+    acc.transitions += 1;
+    match call(|| ECIESCiphertext::from_bytes(&tampered, b.has_pub)) {
+        Ok(Ok(ct)) => {
+            acc.nontrivial_structural += 1;
+            expect_decrypt(acc, case, &input, "ECIES::decrypt", what, call(|| ECIES::decrypt(&ct, &sk_r, &pk_s)), &want, &b.message());
+        }
+        Ok(Err(_)) => acc.outcome(b"parse-rejected:two-changes"),
+        Err(p) => acc.violate(format!("C11/ECIESCiphertext::from_bytes/kind=panic@{}/tamper={}", panic_site(&p), what), case.idx, case.json(input), p),
+    }
+}
+
 fn eval_truncation(case: &Case, acc: &mut Acc, t: &Tab, table: &[(usize, usize)], bs: &[Base]) {
     let (bi, keep) = table[case.idx as usize];
     let b = bs[bi];
@@ -820,6 +870,29 @@ pub fn spaces(tier: Tier) -> Vec<Space> {
     {
         let (t, bs) = (t.clone(), bs.clone());
         v.push(Space::new("wrong-key", bs.len() as u64 * 2 * nk, move |case, acc| eval_wrong_key(case, acc, &t, nk, &bs)));
+    }
+    // coordinated two-place tampering (MAC comparisons that fold differences accept these)
+    {
+        let t = t.clone();
+        let deltas: Vec<u8> = if tier.is_thorough() { (1..=255u8).collect() } else { vec![1, 2, 4, 8, 16, 32, 64, 128, 0xff, 0x55, 0xaa, 3] };
+        let nd = deltas.len() as u64;
+        let d2 = deltas.clone();
+        let t2 = t.clone();
+        v.push(Space::new("tamper-two-mac-bytes", 2 * 2 * 32 * 32 * nd, move |case, acc| {
+            let c = coords(case.idx, &[2, 2, 32, 32, nd]);
+            if c[2] >= c[3] {
+                return;
+            }
+            let b = Base { s: 0, r: 1, len: 17, has_pub: c[0] == 0 };
+            eval_two_changes(case, acc, &t2, b, c[1], c[2] as usize, c[3] as usize, d2[c[4] as usize]);
+        }));
+        let macbytes: Vec<usize> = if tier.is_thorough() { (0..32).collect() } else { vec![0, 13, 31] };
+        let nm = macbytes.len() as u64;
+        v.push(Space::new("tamper-body-bit-and-mac-byte", 2 * 256 * nm * 255, move |case, acc| {
+            let c = coords(case.idx, &[2, 256, nm, 255]);
+            let b = Base { s: 2, r: 3, len: 17, has_pub: c[0] == 0 };
+            eval_two_changes(case, acc, &t, b, 2, c[1] as usize, macbytes[c[2] as usize], (c[3] + 1) as u8);
+        }));
     }
     v
 }
